@@ -1,8 +1,13 @@
 package system
 
 import (
+	"crypto/tls"
+	"encoding/json"
 	"fmt"
+	"net"
 	"net/url"
+	"os"
+	"path/filepath"
 	"strings"
 	"sync"
 	"sync/atomic"
@@ -51,7 +56,7 @@ func c15Conf(ver string, ports []int, gslbAlt bool) *sys.DataConf {
 }
 
 func TestC15(t *testing.T) {
-	rec := ev.New("C15", "stress plans (2..6 client goroutines on keep-alive and fresh HTTP/1 connections, some requests held inside backends; 1..3 reloader goroutines issuing generated sequences of server-data, gslb, TLS and module-data reloads through the real reload entry points) against an in-process BFE built with the race detector. Each request is one case; non-trivial = its lifetime overlapped at least one reload (measured by timestamps). Oracle: no race report, every request is answered 200 by a backend of the cluster one single server-data version selects (a mixed snapshot yields 500), held requests complete")
+	rec := ev.New("C15", "stress plans (2..6 client goroutines on keep-alive and fresh HTTP/1 connections, some requests held inside backends, 0..2 TLS clients whose handshakes use the default TLS rule; 1..3 reloader goroutines issuing generated sequences of server-data, gslb, TLS (alternating between rule files that differ in every default-rule field) and module-data reloads through the real reload entry points) against an in-process BFE built with the race detector. Each request is one case; non-trivial = its lifetime overlapped at least one reload (measured by timestamps). Oracle: no race report, every request is answered 200 by a backend of the cluster one single server-data version selects (a mixed snapshot yields 500), held requests complete")
 	var ports []int
 	w := startWorld(t, 4, sys.Options{Modules: []string{"mod_trust_clientip", "mod_header"}}, func(p []int) *sys.DataConf {
 		ports = p
@@ -69,6 +74,36 @@ func TestC15(t *testing.T) {
 		}
 		_ = i
 		verFiles = append(verFiles, fs)
+	}
+	// two TLS rule files that differ in every default-rule field (used by handshakes that
+	// match neither a VIP nor an SNI rule)
+	var tlsDirs []string
+	for i, def := range []map[string]any{
+		{"DefaultNextProtos": []string{"h2", "http/1.1"}, "DefaultChacha20": true, "DefaultDynamicRecord": true},
+		{"DefaultNextProtos": []string{"http/1.1"}, "DefaultChacha20": false, "DefaultDynamicRecord": false},
+	} {
+		dir := filepath.Join(w.rig.ConfRoot, fmt.Sprintf("tlsalt%d", i))
+		os.MkdirAll(dir, 0o755)
+		cert, err := os.ReadFile(filepath.Join(w.rig.ConfRoot, "tls_conf", "server_cert_conf.data"))
+		if err != nil {
+			t.Fatal(err)
+		}
+		os.WriteFile(filepath.Join(dir, "server_cert_conf.data"), cert, 0o644)
+		raw, err := os.ReadFile(filepath.Join(w.rig.ConfRoot, "tls_conf", "tls_rule_conf.data"))
+		if err != nil {
+			t.Fatal(err)
+		}
+		var rule map[string]any
+		if err := json.Unmarshal(raw, &rule); err != nil {
+			t.Fatal(err)
+		}
+		for k, v := range def {
+			rule[k] = v
+		}
+		rule["Version"] = fmt.Sprintf("alt%d", i)
+		out, _ := json.Marshal(rule)
+		os.WriteFile(filepath.Join(dir, "tls_rule_conf.data"), out, 0o644)
+		tlsDirs = append(tlsDirs, dir)
 	}
 	var reqSeq int64
 	round := 0
@@ -116,7 +151,11 @@ func TestC15(t *testing.T) {
 							err = w.rig.ReloadGslb(fs)
 						}
 					case "tls":
-						err = w.rig.Srv.TLSConfReload(url.Values{})
+						q := url.Values{}
+						if i%3 != 2 {
+							q.Set("path", tlsDirs[(i+r)%2])
+						}
+						err = w.rig.Srv.TLSConfReload(q)
 					case "module":
 						err = w.rig.ReloadModule("mod_trust_clientip", "")
 					}
@@ -196,6 +235,29 @@ func TestC15(t *testing.T) {
 				conn.Close()
 			}()
 		}
+		// TLS clients whose handshake matches neither a VIP nor an SNI rule (default rule)
+		nTLS := rapid.IntRange(0, 2).Draw(rt, "tls-clients")
+		var tlsHandshakes, tlsFailed int64
+		for k := 0; k < nTLS; k++ {
+			cwg.Add(1)
+			go func() {
+				defer cwg.Done()
+				for i := 0; i < perClient/2; i++ {
+					d := &net.Dialer{Timeout: 5 * time.Second}
+					c, err := tls.DialWithDialer(d, "tcp", w.rig.HTTPSAddr, &tls.Config{InsecureSkipVerify: true, ServerName: "nomatch.test", NextProtos: []string{"h2", "http/1.1"}})
+					if err != nil {
+						atomic.AddInt64(&tlsFailed, 1)
+						continue
+					}
+					atomic.AddInt64(&tlsHandshakes, 1)
+					if p := c.ConnectionState().NegotiatedProtocol; p != "h2" {
+						fmt.Fprintf(c, "GET /c15tls/%d HTTP/1.1\r\nHost: example.org\r\nConnection: close\r\n\r\n", i)
+						sys.ReadAllTimeout(c, 5*time.Second)
+					}
+					c.Close()
+				}
+			}()
+		}
 		// release held requests shortly after they reached a backend, while reloads continue
 		relDone := make(chan struct{})
 		go func() {
@@ -261,6 +323,8 @@ func TestC15(t *testing.T) {
 				}
 			}
 		}
+		rec.Add("tls_default_rule_handshakes", tlsHandshakes)
+		rec.Add("tls_handshakes_failed", tlsFailed)
 		rec.Add("reloads", int64(len(reloads)))
 		rec.Add("requests_overlapping_reload", int64(overlapped))
 		_ = ref.ErrIncomplete
